@@ -1636,6 +1636,45 @@ func setterObligations(w *World, p *Prog) []Ob {
 			}
 			walk(fn.Blocks[0])
 			ob := Ob{Rule: "GLOB-3", Cfg: p.Cfg.Name, Func: p.FuncID(fn), Construct: "a setter of the node's cached " + k + " stores on every route", Pos: p.Pos(fn.Pos()), Nontrivial: true, Role: "setter"}
+			// "nothing to add" decided from the arguments alone (len(parts) == 0) is not a remembered state: only a
+			// return that depends on the node itself can keep an earlier stage's value alive
+			if escape != nil {
+				onNode := false
+				for _, g := range guardsOf(escape) {
+					if dependsOnValue(g.Cond, fn.Params[0], 0) {
+						onNode = true
+					}
+					// loads of the receiver's fields
+					var refs func(v ssa.Value, d int) bool
+					refs = func(v ssa.Value, d int) bool {
+						if d > 4 || v == nil {
+							return false
+						}
+						if _, _, isF := fieldOfLoad(v); isF {
+							return true
+						}
+						switch y := v.(type) {
+						case *ssa.BinOp:
+							return refs(y.X, d+1) || refs(y.Y, d+1)
+						case *ssa.UnOp:
+							return refs(y.X, d+1)
+						case *ssa.Call:
+							for _, a := range y.Common().Args {
+								if refs(a, d+1) {
+									return true
+								}
+							}
+						}
+						return false
+					}
+					if refs(g.Cond, 0) {
+						onNode = true
+					}
+				}
+				if len(guardsOf(escape)) > 0 && !onNode {
+					escape = nil
+				}
+			}
 			if escape != nil {
 				ob.Status = Violation
 				ob.Detail = "the return at " + p.InstrPos(escape.Instrs[len(escape.Instrs)-1]) + " is reached without storing the node's " + k + ": the caller's clear / extend sequence silently keeps whatever was cached before"
